@@ -90,6 +90,22 @@ def build_cases(ctx):
                             cases.append(dict(doc='\n'.join(lines), expect='gotwant', fail_stmt=len(stmts), trace=trace, corruption='stale-before-expected-exception', fail_line=None))
                         elif not stale:
                             cases.append(dict(doc='\n'.join(lines), expect='pass', trace=trace, variants=['after_expected_exception:' + name]))
+    # everything written since the previous want, when the lines are much longer than the want that describes them: columns padded
+    # with long runs of blanks (written with single blanks in the want: NORMALIZE_WHITESPACE is on by default), coloured text
+    for pad, deco in ((48, ''), (90, ''), (6, '\x1b[1;32m'), (200, '')):
+        for nfront in (1, 2):
+            front = [gendoc.Stmt('print', 10 + i) for i in range(nfront)]
+            k = 10 + nfront
+            if deco:
+                src = "print(%r * 9 + 'row' + %r * 9, t(%d))" % (deco, '\x1b[0m', k)
+            else:
+                src = "print('row'.ljust(%d), t(%d))" % (pad, k)
+            lines = [l for st in front for l in st.render()] + ['>>> ' + src]
+            body = ''.join(st.out for st in front) + 'row %d' % k
+            trace = list(range(10, k + 1))
+            cases.append(dict(doc='\n'.join(lines + body.split('\n')), expect='pass', trace=trace, variants=['padded_all']))
+            cases.append(dict(doc='\n'.join(lines + ['row %d' % k]), expect='pass', trace=trace, variants=['padded_last']))
+            cases.append(dict(doc='\n'.join(lines + (body + ' x').split('\n')), expect='gotwant', fail_stmt=nfront, trace=trace, corruption='padded-appended', fail_line=None))
     return cases
 
 
